@@ -20,6 +20,44 @@ static int rel_plan[8];
 static int point_idx;
 static bool in_acquire, in_release;
 static int released_in_call;
+/* Scaled rings: every size of the script is multiplied by `unit` before it reaches the library and every offset / capacity
+ * is divided by it on the way back (remainders are logged and must be zero), so that rings of gigabytes fit the model's
+ * integers; such rings are reserved address space that is never touched.  Sizes >= BIGLOG units are logged as BIGLOG. */
+static size_t unit = 1;
+#define BIGLOG 1000000000ll
+#include <sys/mman.h>
+static void *res_acquire(struct aws_allocator *a, size_t n) {
+    (void)a;
+    void *p = mmap(NULL, n + 16, PROT_NONE, MAP_PRIVATE | MAP_ANONYMOUS | MAP_NORESERVE, -1, 0);
+    if (p == MAP_FAILED) {
+        abort();
+    }
+    vh_live_blocks++;
+    return p;
+}
+static size_t res_size;
+static void res_release(struct aws_allocator *a, void *p) {
+    (void)a;
+    munmap(p, res_size + 16);
+    vh_live_blocks--;
+}
+static struct aws_allocator res_alloc = {.mem_acquire = res_acquire, .mem_release = res_release};
+static long long scaled(size_t v) {
+    return v / unit > (size_t)BIGLOG ? BIGLOG : (long long)(v / unit);
+}
+static size_t size_arg(int i) {
+    const char *t = vh_args(i);
+    if (!strcmp(t, "MAX")) {
+        return SIZE_MAX;
+    }
+    if (!strcmp(t, "HALF")) {
+        return (size_t)1 << 63;
+    }
+    if (!strcmp(t, "G4")) {
+        return (size_t)1 << 32;
+    }
+    return (size_t)vh_argu(i) * unit;
+}
 
 static void do_release(bool log) {
     if (out_head == out_tail) {
@@ -27,7 +65,7 @@ static void do_release(bool log) {
     }
     struct aws_byte_buf b = outq[out_head % MAXOUT];
     out_head++;
-    long long off = (long long)(b.buffer - ring.allocation), cap = (long long)b.capacity;
+    long long off = scaled((size_t)(b.buffer - ring.allocation)), cap = scaled(b.capacity);
     in_release = true;
     aws_ring_buffer_release(&ring, &b);
     in_release = false;
@@ -76,16 +114,19 @@ int main(int argc, char **argv) {
             if (ring_live) {
                 aws_ring_buffer_clean_up(&ring);
             }
-            size_t n = (size_t)vh_argi(1);
-            aws_ring_buffer_init(&ring, vh_alloc(), n);
+            unit = vh_ntok > 2 ? (size_t)vh_argu(2) : 1;
+            size_t n = (size_t)vh_argi(1) * unit;
+            res_size = n;
+            aws_ring_buffer_init(&ring, unit > 1 ? &res_alloc : vh_alloc(), n);
             ring_live = true;
             out_head = out_tail = 0;
             vh_begin("Reset");
-            vh_int("n", (long long)n);
+            vh_int("n", scaled(n));
+            vh_int("unit", (long long)unit);
             vh_end();
         } else if (vh_is("ACQ")) {
             bool upto = strcmp(vh_args(1), "upto") == 0;
-            size_t mn = (size_t)vh_argi(2), n = (size_t)vh_argi(3);
+            size_t mn = size_arg(2), n = size_arg(3);
             for (int i = 0; i < 8; ++i) {
                 rel_plan[i] = (4 + i < vh_ntok) ? (int)vh_argi(4 + i) : 0;
             }
@@ -98,22 +139,26 @@ int main(int argc, char **argv) {
             in_acquire = false;
             vh_begin("Acquire");
             vh_str("form", upto ? "upto" : "exact");
-            vh_int("min", (long long)mn);
-            vh_int("n", (long long)n);
+            vh_int("min", scaled(mn));
+            vh_int("n", scaled(n));
             vh_int("k", released_in_call);
             vh_int("busy", 0); /* single thread: no release call is ever in progress when an acquire call begins */
             vh_rc(rc);
             if (rc == 0) {
-                vh_int("off", (long long)(dest.buffer - ring.allocation));
-                vh_int("cap", (long long)dest.capacity);
+                vh_int("off", scaled((size_t)(dest.buffer - ring.allocation)));
+                vh_int("cap", scaled(dest.capacity));
                 vh_int("len", (long long)dest.len);
-                memset(dest.buffer, 0x5a, dest.capacity); /* the caller may write the whole buffer (ASan sees overruns) */
+                vh_int("rem", (long long)((size_t)(dest.buffer - ring.allocation) % unit + dest.capacity % unit));
+                if (unit == 1 && dest.capacity <= res_size) {
+                    memset(dest.buffer, 0x5a, dest.capacity); /* the caller may write the whole buffer (ASan sees overruns) */
+                }
                 outq[out_tail % MAXOUT] = dest;
                 out_tail++;
             } else {
                 vh_int("off", 0);
                 vh_int("cap", 0);
                 vh_int("len", 0);
+                vh_int("rem", 0);
             }
             vh_int("valid", aws_ring_buffer_is_valid(&ring)); /* the library's own invariant predicate */
             vh_end();
